@@ -11,15 +11,9 @@ Definition count (c : Z) (s : list Z) : nat := count_occ Z.eq_dec s c.
 (* counter specification of "the braces balance": as many '{' as '}' *)
 Definition balanced (s : list Z) : Prop := count LBRACE s = count RBRACE s.
 
-(* nesting specification: no prefix closes more than it opens, and the totals agree *)
-Fixpoint nested_from (d : nat) (s : list Z) : bool :=
-  match s with
-  | [] => (d =? 0)%nat
-  | c :: t => if c =? LBRACE then nested_from (S d) t
-              else if c =? RBRACE then match d with O => false | S d' => nested_from d' t end
-              else nested_from d t
-  end.
-Definition well_nested (s : list Z) : Prop := nested_from O s = true.
+(* nesting specification: the totals agree and no prefix closes more than it opens *)
+Definition well_nested (s : list Z) : Prop :=
+  balanced s /\ forall n, (count RBRACE (firstn n s) <= count LBRACE (firstn n s))%nat.
 
 Definition all_ws (l : list Z) : Prop := forallb is_ws l = true.
 Definition no_lf (l : list Z) : Prop := ~ In LF l.
@@ -28,66 +22,109 @@ Definition not_ending_cr (l : list Z) : Prop := forall l', l <> l' ++ [CR].
 
 (* ------------------------------------------------------------------ check_braces *)
 
-Lemma brace_count_spec : forall s acc,
-  brace_count s acc = acc + Z.of_nat (count LBRACE s) - Z.of_nat (count RBRACE s).
+Lemma count_cons : forall c x t, count c (x :: t) = ((if (x =? c)%Z then 1 else 0) + count c t)%nat.
 Proof.
-  induction s as [|c t IH]; intros acc.
-  - cbn [brace_count count count_occ]. lia.
-  - cbn [brace_count]. rewrite IH. unfold brace_step, count. cbn [count_occ].
-    unfold LBRACE, RBRACE in *.
-    destruct (Z.eqb_spec c 123) as [E|E].
-    + subst c. destruct (Z.eq_dec 123 123) as [_|N]; [|congruence].
-      destruct (Z.eq_dec 123 125) as [N|_]; [discriminate|]. lia.
-    + destruct (Z.eq_dec c 123) as [N|_]; [congruence|].
-      destruct (Z.eqb_spec c 125) as [E2|E2].
-      * subst c. destruct (Z.eq_dec 125 125) as [_|N]; [|congruence]. lia.
-      * destruct (Z.eq_dec c 125) as [N|_]; [congruence|]. lia.
+  intros c x t. unfold count. cbn [count_occ]. destruct (Z.eq_dec x c) as [E|E].
+  - subst x. rewrite Z.eqb_refl. reflexivity.
+  - destruct (Z.eqb_spec x c) as [E2|E2]; [congruence|reflexivity].
 Qed.
-
-Lemma check_braces_iff : forall conf start,
-  check_braces conf start = true <-> balanced (skipn start conf).
-Proof.
-  intros conf start. unfold check_braces, balanced. rewrite brace_count_spec.
-  rewrite Z.eqb_eq. lia.
-Qed.
-
-Lemma check_braces_iff_balanced : forall conf, check_braces conf O = true <-> balanced conf.
-Proof. intros conf. rewrite check_braces_iff. cbn [skipn]. tauto. Qed.
 
 Lemma count_app : forall c a b, count c (a ++ b) = (count c a + count c b)%nat.
 Proof. intros c a b. unfold count. apply count_occ_app. Qed.
 
-(* with balanced conf, "balanced from pos to the end" is "depth 0 at pos" *)
-Lemma suffix_balanced_iff_prefix : forall conf pos,
-  balanced conf -> (balanced (skipn pos conf) <-> balanced (firstn pos conf)).
+Lemma firstn_add : forall (l : list Z) p n, firstn (p + n) l = firstn p l ++ firstn n (skipn p l).
 Proof.
-  intros conf pos H. unfold balanced in *.
-  rewrite <- (firstn_skipn pos conf) in H. rewrite !count_app in H. lia.
+  induction l as [|c t IH]; intros p n.
+  - rewrite !firstn_nil, skipn_nil, firstn_nil. reflexivity.
+  - destruct p as [|p']; [reflexivity|]. cbn [Nat.add firstn skipn app]. f_equal. apply IH.
 Qed.
 
-Lemma well_nested_balanced_gen : forall s d,
-  nested_from d s = true -> (d + count LBRACE s = count RBRACE s)%nat.
+(* the repaired loop, for any current count d: it ends with count 0 and never goes below 0 *)
+Lemma braces_ok_spec : forall s d,
+  braces_ok s d = true <->
+  (d + count LBRACE s = count RBRACE s)%nat /\
+  forall n, (count RBRACE (firstn n s) <= d + count LBRACE (firstn n s))%nat.
 Proof.
-  induction s as [|c t IH]; intros d H.
-  - cbn [nested_from] in H. apply Nat.eqb_eq in H. unfold count. cbn [count_occ]. lia.
-  - cbn [nested_from] in H. unfold count in *. cbn [count_occ]. unfold LBRACE, RBRACE in *.
-    destruct (Z.eqb_spec c 123) as [E|E].
-    + subst c. destruct (Z.eq_dec 123 123) as [_|N]; [|congruence].
-      destruct (Z.eq_dec 123 125) as [N|_]; [discriminate|]. apply IH in H. lia.
-    + destruct (Z.eq_dec c 123) as [N|_]; [congruence|].
-      destruct (Z.eqb_spec c 125) as [E2|E2].
-      * subst c. destruct (Z.eq_dec 125 125) as [_|N]; [|congruence].
-        destruct d as [|d']; [discriminate|]. apply IH in H. lia.
-      * destruct (Z.eq_dec c 125) as [N|_]; [congruence|]. apply IH in H. lia.
+  induction s as [|c t IH]; intros d.
+  - cbn [braces_ok]. rewrite Nat.eqb_eq. unfold count. cbn [count_occ]. split.
+    + intros E. split; [lia|]. intros n. rewrite firstn_nil. cbn. lia.
+    + intros [E _]. lia.
+  - cbn [braces_ok]. rewrite !count_cons.
+    assert (LR : (LBRACE =? RBRACE) = false) by reflexivity.
+    assert (RL : (RBRACE =? LBRACE) = false) by reflexivity.
+    destruct (Z.eqb_spec c LBRACE) as [E|E].
+    + subst c. rewrite LR. rewrite IH. split.
+      * intros [H1 H2]. split; [lia|]. intros n. destruct n as [|n']; [cbn; lia|].
+        cbn [firstn]. rewrite !count_cons, Z.eqb_refl, LR. specialize (H2 n'). lia.
+      * intros [H1 H2]. split; [lia|]. intros n. specialize (H2 (S n)). cbn [firstn] in H2.
+        rewrite !count_cons, Z.eqb_refl, LR in H2. lia.
+    + destruct (Z.eqb_spec c RBRACE) as [E2|E2].
+      * subst c. destruct d as [|d'].
+        -- split; [discriminate|]. intros [_ H2]. specialize (H2 1%nat). cbn [firstn] in H2.
+           rewrite !count_cons, Z.eqb_refl, RL in H2. unfold count in H2. cbn [count_occ] in H2. lia.
+        -- rewrite IH. split.
+           ++ intros [H1 H2]. split; [lia|]. intros n. destruct n as [|n']; [cbn; lia|].
+              cbn [firstn]. rewrite !count_cons, Z.eqb_refl, RL. specialize (H2 n'). lia.
+           ++ intros [H1 H2]. split; [lia|]. intros n. specialize (H2 (S n)). cbn [firstn] in H2.
+              rewrite !count_cons, Z.eqb_refl, RL in H2. lia.
+      * rewrite IH. split.
+        -- intros [H1 H2]. split; [lia|]. intros n. destruct n as [|n']; [cbn; lia|].
+           cbn [firstn]. rewrite !count_cons.
+           destruct (Z.eqb_spec c LBRACE); [congruence|]. destruct (Z.eqb_spec c RBRACE); [congruence|].
+           specialize (H2 n'). lia.
+        -- intros [H1 H2]. split; [lia|]. intros n. specialize (H2 (S n)). cbn [firstn] in H2.
+           rewrite !count_cons in H2.
+           destruct (Z.eqb_spec c LBRACE); [congruence|]. destruct (Z.eqb_spec c RBRACE); [congruence|]. lia.
 Qed.
+
+Lemma check_braces_iff : forall conf start,
+  check_braces conf start = true <-> well_nested (skipn start conf).
+Proof.
+  intros conf start. unfold check_braces, well_nested, balanced. rewrite braces_ok_spec. cbn [Nat.add]. tauto.
+Qed.
+
+Lemma check_braces_iff_nested : forall conf, check_braces conf O = true <-> well_nested conf.
+Proof. intros conf. rewrite check_braces_iff. cbn [skipn]. tauto. Qed.
 
 Lemma well_nested_balanced : forall s, well_nested s -> balanced s.
-Proof. intros s H. apply well_nested_balanced_gen in H. unfold balanced. lia. Qed.
+Proof. intros s [H _]. exact H. Qed.
 
-(* the count test is weaker than nesting *)
+(* in a well-nested configuration, "well-nested from pos to the end" is "depth 0 at pos" *)
+Lemma suffix_nested_iff_prefix : forall conf pos,
+  well_nested conf -> (well_nested (skipn pos conf) <-> balanced (firstn pos conf)).
+Proof.
+  intros conf pos [Hb Hp]. unfold well_nested, balanced in *.
+  assert (Hs : (count LBRACE (firstn pos conf) + count LBRACE (skipn pos conf) = count LBRACE conf /\
+                count RBRACE (firstn pos conf) + count RBRACE (skipn pos conf) = count RBRACE conf)%nat).
+  { rewrite <- !count_app, firstn_skipn. split; reflexivity. }
+  split.
+  - intros [H1 _]. lia.
+  - intros H. split; [lia|]. intros n. specialize (Hp (pos + n)%nat). rewrite firstn_add, !count_app in Hp. lia.
+Qed.
+
+(* the pinned count test is weaker than nesting *)
+Lemma brace_count_spec : forall s acc,
+  brace_count s acc = acc + Z.of_nat (count LBRACE s) - Z.of_nat (count RBRACE s).
+Proof.
+  induction s as [|c t IH]; intros acc.
+  - unfold count. cbn [brace_count count_occ]. lia.
+  - cbn [brace_count]. rewrite IH, !count_cons. unfold brace_step.
+    destruct (Z.eqb_spec c LBRACE) as [E|E].
+    + subst c. assert (LR : (LBRACE =? RBRACE) = false) by reflexivity. rewrite LR. lia.
+    + destruct (Z.eqb_spec c RBRACE) as [E2|E2]; lia.
+Qed.
+
+Lemma check_braces_pinned_iff : forall conf start,
+  check_braces_pinned conf start = true <-> balanced (skipn start conf).
+Proof.
+  intros conf start. unfold check_braces_pinned, balanced. rewrite brace_count_spec, Z.eqb_eq. lia.
+Qed.
+
 Lemma check_braces_nesting_refuted :
-  exists s, check_braces s O = true /\ ~ well_nested s.
-Proof. exists [RBRACE; LBRACE]. split; [reflexivity|]. unfold well_nested. cbn. discriminate. Qed.
+  exists s, check_braces_pinned s O = true /\ ~ well_nested s.
+Proof.
+  exists [RBRACE; LBRACE]. split; [reflexivity|]. intros [_ H]. specialize (H 1%nat). cbn in H. lia.
+Qed.
 
 (* ------------------------------------------------------------------ lines *)
 
